@@ -98,6 +98,10 @@ class Engine(CallMixin):
         def walk(s: Any) -> bool:
             if s is None:
                 return False
+            if callable(s) and not hasattr(s, "kind"):
+                return True       # a result sort computed from the arguments: assume the family may be involved
+            if isinstance(s, (tuple, list)):
+                return any(walk(x) for x in s)
             if s.kind == "adt" and s.arg == fname:
                 return True
             for a in (s.arg, s.arg2):
